@@ -66,6 +66,10 @@ Definition translate_compile (t : script) : outcome (list op) := obind (translat
 Definition translate_eval (t : script) : outcome (list op * list Z) :=
   obind (translate_compile t) (fun p => obind (evaluate p) (fun c => Ok (p, c))).
 
+(* the element each statement denotes: (name, chain index of its value), in statement order *)
+Definition stmt_bindings (t : script) : outcome (list (list N * Z)) :=
+  obind (tr_stmts t t_init) (fun st => Ok (rev (t_vars st))).
+
 (* ---- hypothesis of the C07 round-trip theorem (local copy of Printer.wf_script) ---- *)
 Definition is_alpha_ (c : N) : bool :=
   (((97 <=? c) && (c <=? 122)) || ((65 <=? c) && (c <=? 90)) || (c =? 95))%N.
@@ -75,7 +79,10 @@ Definition ident_ok (s : list N) : bool :=
   match s with c :: r => is_alpha_ c && forallb is_idc r | [] => false end.
 (* "dbl" followed by a letter, '_' or '1' (finding K1) *)
 Definition dbl_class (s : list N) : bool :=
-  match s with 100%N :: 98%N :: 108%N :: c :: _ => is_alpha_ c || (c =? 49)%N | _ => false end.
+  match s with
+  | c1 :: c2 :: c3 :: c :: _ => ((c1 =? 100) && (c2 =? 98) && (c3 =? 108) && (is_alpha_ c || (c =? 49)))%N
+  | _ => false
+  end.
 Fixpoint wf_expr (sh : bool) (e : expr) : bool :=
   match e with
   | EOperand i => (0 <=? i) && (i <? 2 ^ 63)
